@@ -663,6 +663,7 @@ func renderHook(in Input, obs *Obs, crash string) core.Case {
 	kb, _ := json.Marshal(in)
 	c.Key = string(kb)
 	c.Nontrivial = len(evs) > 0
+	c.Tags = append(c.Tags, serverTags(in)...)
 	c.Tags = append(c.Tags, "kind:hook", "version:v1", fmt.Sprintf("hook:kubernetes-bindings=%d", len(h.Kube)),
 		fmt.Sprintf("hook:other-bindings=%d", len(h.Other)), fmt.Sprintf("hook:events=%d", len(evs)))
 	// bindings of different types that share a name
@@ -834,7 +835,7 @@ func (g *gen) hookReview(t string) *Review {
 		rv = &Review{UID: fmt.Sprintf("uid-%d", g.r.Intn(9)), Desired: "stable.example.com/" + hookConvTo}
 	}
 	for i := g.r.Intn(2); i > 0; i-- {
-		rv.Objects = append(rv.Objects, g.obj())
+		rv.Objects = append(rv.Objects, g.plainObj())
 	}
 	return rv
 }
@@ -1240,6 +1241,20 @@ func hookCorpus() []core.In[Input] {
 	add(Input{Version: "v1", Hook: &Hook{
 		Other: []HookOther{{Type: "kubernetesCustomResourceConversion", Name: "up.example.com", Crd: "crontabs.example.com", Rules: [][2]string{{"v1", "v2"}, {"v2", "v1"}}}}},
 		Ctxs: []Ctx{convFire(0, "v1", "v2")}})
+	// a real cluster: objects with managedFields, uid, resourceVersion, ...; one binding's jqFilter lists the field
+	// managers and keeps no full objects, the other takes the metadata wholesale and keeps them; a Synchronization,
+	// two Events and a Schedule with both snapshots in ONE array
+	mgrs, meta := `{m: [.metadata.managedFields[]?.manager]}`, `{meta: .metadata}`
+	add(Input{Version: "v1", Hook: &Hook{
+		Kube: []HookKube{{Name: "cm.example.com", Ns: "ks", JqFilter: mgrs, Keep: bptr(false), Incl: []string{"cm.example.com"},
+			Initial: []Item{{Obj: servedCM("ks", "settings", "bar", 48213, 2), Filter: mgrs}}},
+			{Name: "pods.example.com", Ns: "d", JqFilter: meta, Events: &all,
+				Initial: []Item{{Obj: servedCM("d", "pod-0", "x", 48214, 1), Filter: meta, Keep: true}}}},
+		Other: []HookOther{{Type: "schedule", Name: "pods.example.com", Incl: []string{"cm.example.com", "pods.example.com"}}}},
+		Ctxs: []Ctx{{Kind: "hook-ev", Op: "sync", K: 0},
+			{Kind: "hook-ev", Op: "apply", K: 1, Objects: []Item{{Obj: servedCM("d", "pod-1", "y", 48230, 3), Filter: meta, Keep: true}}},
+			{Kind: "hook-ev", Op: "apply", K: 0, Objects: []Item{{Obj: servedCM("ks", "settings", "baz", 48231, 1), Filter: mgrs}}},
+			{Kind: "hook-ev", Op: "fire", K: 0}}})
 	// F30: two schedule bindings called tick.example.com, the second one includes the ConfigMaps and fires
 	settings := Item{Obj: cmData("ks", "settings", "bar"), Filter: "{data: .data}"}
 	out = append(out, core.In[Input]{Stream: "trigger-F30", Input: Input{Version: "v1", Hook: &Hook{
